@@ -619,7 +619,10 @@ def outliers(ctx):
         _, pos, _ = call_parts(main[0])
         col = strip_wrappers(pos[1]) if len(pos) > 1 else None
         if col is not None and col.op in ("phi", "ifexp") and col.args[1].op == "const" and col.args[2].op == "const":
-            sel = (show(col.args[0], maxdepth=4), col.args[1].args[0], col.args[2].args[0])
+            cnd_, a_, b_ = col.args[0], col.args[1].args[0], col.args[2].args[0]
+            while cnd_.op == "unop" and cnd_.args[0] == "not":          # 1 if not sampled else 2  ==  2 if sampled else 1
+                cnd_, a_, b_ = cnd_.args[1], b_, a_
+            sel = (show(cnd_, maxdepth=4), a_, b_)
     ok_col = sel is not None and sel[1] == 2 and sel[2] == 1 and "ad_mode" in sel[0] and "2rdm" in sel[0]
     ctx.ob("PAIR-4", "driver.afqmc: outliers are judged on the observable column exactly when an observable is sampled",
            ok_col, f"column {sel[1]} if {sel[0]} else {sel[2]}" if sel else f"{len(main)} first-stage reject_outliers call(s), "
